@@ -98,15 +98,6 @@ def constants():
     t += f"/-- `_V2_FIELDS`: refused when parsing a version 0 input -/\ndef PSBT_IN_V2 : List Nat := {lst(sorted(k[0] for k in psbt_in._V2_FIELDS))}\n"
     t += f"/-- `_PRESENT_IF_NOT_NONE`: written whenever present, whatever the value -/\ndef PSBT_IN_PRESENT_IF_NOT_NONE : List Nat := {lst(types_of(psbt_in._PRESENT_IF_NOT_NONE, '_PRESENT_IF_NOT_NONE'))}\n"
     t += f"/-- `_DROPPED_ONCE_FINALIZED` -/\ndef PSBT_IN_DROPPED_ONCE_FINALIZED : List Nat := {lst(types_of(psbt_in._DROPPED_ONCE_FINALIZED, '_DROPPED_ONCE_FINALIZED'))}\n"
-    def by_fn(table, idx, fn_name):
-        return sorted(k[0] for k, v in table.items() if getattr(v[idx], "__qualname__", getattr(v[idx], "__name__", "")) == fn_name)
-
-    t += f"/-- whole-value fields read by `_deserialize_uint32` -/\ndef PSBT_IN_UINT32 : List Nat := {lst(by_fn(psbt_in._WHOLE_VALUE_FIELDS, 2, '_deserialize_uint32'))}\n"
-    t += f"/-- whole-value fields read by `_deserialize_previous_tx_id` -/\ndef PSBT_IN_TXID : List Nat := {lst(by_fn(psbt_in._WHOLE_VALUE_FIELDS, 2, '_deserialize_previous_tx_id'))}\n"
-    t += f"/-- key-data fields whose value is a `BIP32KeyOrigin` -/\ndef PSBT_IN_KEYORIGIN : List Nat := {lst(by_fn(psbt_in._KEY_DATA_FIELDS, 1, 'BIP32KeyOrigin.parse'))}\n"
-    t += f"/-- key-data fields read by `parse_leaf_script` -/\ndef PSBT_IN_LEAF : List Nat := {lst(by_fn(psbt_in._KEY_DATA_FIELDS, 1, 'parse_leaf_script'))}\n"
-    t += f"/-- key-data fields read by `parse_taproot_bip32` -/\ndef PSBT_IN_TAPBIP32 : List Nat := {lst(by_fn(psbt_in._KEY_DATA_FIELDS, 1, 'parse_taproot_bip32'))}\n"
-    t += f"/-- key-data fields read by `parse_musig2_participant_pub_keys` -/\ndef PSBT_IN_MUSIG : List Nat := {lst(by_fn(psbt_in._KEY_DATA_FIELDS, 1, 'parse_musig2_participant_pub_keys'))}\n"
     t += f"/-- `_V2_ONLY`: not written when serializing at version 0 -/\ndef PSBT_IN_V2_ONLY : List Nat := {lst(types_of(psbt_in._V2_ONLY, '_V2_ONLY'))}\n"
     # the fields `finalized = bool(self.a or self.b)` reads in PsbtIn.serialize
     ser_tree = ast.parse(textwrap.dedent(inspect.getsource(psbt_in.PsbtIn.serialize)))
@@ -123,12 +114,14 @@ def constants():
     t += f"def PSBT_IN_WITNESS_UTXO : Nat := {psbt_in.PSBT_IN_WITNESS_UTXO[0]}\n"
     t += _psbt_out_tables()
     t += _psbt_global_tables()
+    t += _kinds_tables()
     return t
 
 
 def _emission(mod, fn_node, funcs, prefix):
-    """(order, written-under-`is not None`) of the serialize_* calls of fn_node, helpers inlined in call order"""
-    order, not_none = [], []
+    """(order, written-under-`is not None`, written-under-a-version-2-test, written-under-a-version-0-test,
+    written-under-no-test-of-the-value) of the serialize_* calls of fn_node, helpers inlined in call order"""
+    order, not_none, v2_only, v0_only, uncond = [], [], [], [], []
 
     def const_of(node):
         if isinstance(node, ast.Name) and node.id.startswith(prefix):
@@ -137,20 +130,31 @@ def _emission(mod, fn_node, funcs, prefix):
             return 256
         return None
 
+    def test_kind(t_):
+        if (isinstance(t_, ast.Compare) and isinstance(t_.ops[0], ast.IsNot)
+                and isinstance(t_.comparators[0], ast.Constant) and t_.comparators[0].value is None):
+            return "nn"
+        u = ast.unparse(t_)
+        if u in ("psbt_version == 2", "self.version == PSBT_V2", "psbt_version == PSBT_V2"):
+            return "v2"
+        if u in ("psbt_version == 0", "self.version == PSBT_V0", "psbt_version == PSBT_V0"):
+            return "v0"
+        return "other"
+
     class V(ast.NodeVisitor):
         def __init__(self):
-            self.nn = 0
+            self.ctx = []
 
         def visit_If(self, node):
-            t_ = node.test
-            nn = (isinstance(t_, ast.Compare) and isinstance(t_.ops[0], ast.IsNot)
-                  and isinstance(t_.comparators[0], ast.Constant) and t_.comparators[0].value is None)
-            self.nn += nn
+            self.ctx.append(test_kind(node.test))
             for b in node.body:
                 self.visit(b)
-            self.nn -= nn
+            self.ctx.pop()
+            # an `elif` / `else` arm is under the negation of the test: neither a version arm nor a value test
+            self.ctx.append("else")
             for b in node.orelse:
                 self.visit(b)
+            self.ctx.pop()
 
         def visit_Call(self, node):
             name = getattr(node.func, "id", "")
@@ -161,15 +165,21 @@ def _emission(mod, fn_node, funcs, prefix):
                 c = const_of(node.args[0])
                 if c is not None:
                     order.append(c)
-                    if self.nn:
+                    if "nn" in self.ctx:
                         not_none.append(c)
+                    if "v2" in self.ctx:
+                        v2_only.append(c)
+                    if "v0" in self.ctx:
+                        v0_only.append(c)
+                    if not any(x in ("nn", "other") for x in self.ctx):
+                        uncond.append(c)
                     for a in node.args[1:]:
                         self.visit(a)
                     return
             self.generic_visit(node)
 
     V().visit(fn_node)
-    return order, not_none
+    return order, not_none, v2_only, v0_only, uncond
 
 
 def _psbt_global_tables():
@@ -178,7 +188,7 @@ def _psbt_global_tables():
     funcs = {n.name: n for n in modtree.body if isinstance(n, ast.FunctionDef)}
     cls = next(n for n in modtree.body if isinstance(n, ast.ClassDef) and n.name == "Psbt")
     meth = {n.name: n for n in cls.body if isinstance(n, ast.FunctionDef)}
-    order, not_none = _emission(m, meth["serialize"], funcs, "PSBT_GLOBAL_")
+    order, not_none, v2_only, v0_only, always = _emission(m, meth["serialize"], funcs, "PSBT_GLOBAL_")
     if len(set(order)) != len(order) or order.count(256) != 1:
         raise ValueError(f"Psbt.serialize: emission order malformed: {order}")
     # fields of the dispatch of _parse_global_map: `X[k[1:]] = …` under the branch makes a key-data field
@@ -191,7 +201,7 @@ def _psbt_global_tables():
             (keyed if is_keyed else whole).append(c)
     if set(keyed) & set(whole) or set(keyed + whole) != set(order) - {256}:
         raise ValueError(f"_parse_global_map: field tables malformed: whole={whole} keyed={keyed} order={order}")
-    always = sorted(c for c in (m.PSBT_GLOBAL_TX_VERSION[0], m.PSBT_GLOBAL_INPUT_COUNT[0], m.PSBT_GLOBAL_OUTPUT_COUNT[0]))
+    always = sorted(c for c in always if c in v2_only)     # written whenever the version is 2, whatever the value
 
     def lst(xs):
         return "[" + ", ".join(str(x) for x in xs) + "]"
@@ -201,13 +211,10 @@ def _psbt_global_tables():
     t += f"def PSBT_GLOBAL_KEYED : List Nat := {lst(sorted(keyed))}\n"
     t += f"/-- `_V2_GLOBAL_FIELDS` -/\ndef PSBT_GLOBAL_V2 : List Nat := {lst(sorted(k[0] for k in m._V2_GLOBAL_FIELDS))}\n"
     t += f"/-- written under `is not None`, or unconditionally in their version (`_settle_globals` requires them) -/\ndef PSBT_GLOBAL_PRESENT_IF_NOT_NONE : List Nat := {lst(sorted(set(not_none) | set(always)))}\n"
-    t += f"def PSBT_GLOBAL_REQUIRED_V2 : List Nat := {lst(always)}\n"
+    t += f"/-- written only under the version 2 arm of `Psbt.serialize` -/\ndef PSBT_GLOBAL_V2_ONLY : List Nat := {lst(sorted(v2_only))}\n"
+    t += f"/-- written only under the version 0 arm of `Psbt.serialize` -/\ndef PSBT_GLOBAL_V0_WRITTEN : List Nat := {lst(sorted(v0_only))}\n"
     t += f"def PSBT_GLOBAL_UNSIGNED_TX : Nat := {m.PSBT_GLOBAL_UNSIGNED_TX[0]}\n"
     t += f"def PSBT_GLOBAL_VERSION : Nat := {m.PSBT_GLOBAL_VERSION[0]}\n"
-    t += f"def PSBT_GLOBAL_UINT32 : List Nat := {lst(sorted([m.PSBT_GLOBAL_TX_VERSION[0], m.PSBT_GLOBAL_FALLBACK_LOCKTIME[0], m.PSBT_GLOBAL_VERSION[0]]))}\n"
-    t += f"def PSBT_GLOBAL_COUNTS : List Nat := {lst(sorted([m.PSBT_GLOBAL_INPUT_COUNT[0], m.PSBT_GLOBAL_OUTPUT_COUNT[0]]))}\n"
-    t += f"def PSBT_GLOBAL_TX_MODIFIABLE : Nat := {m.PSBT_GLOBAL_TX_MODIFIABLE[0]}\n"
-    t += f"def PSBT_GLOBAL_XPUB : Nat := {m.PSBT_GLOBAL_XPUB[0]}\n"
     return t
 
 
@@ -227,38 +234,7 @@ def _psbt_out_tables():
             return 256
         return None
 
-    order, not_none = [], []
-
-    class V(ast.NodeVisitor):
-        def __init__(self):
-            self.in_not_none = 0
-
-        def visit_If(self, node):
-            t_ = node.test
-            nn = (isinstance(t_, ast.Compare) and isinstance(t_.ops[0], ast.IsNot)
-                  and isinstance(t_.comparators[0], ast.Constant) and t_.comparators[0].value is None)
-            self.in_not_none += nn
-            for b in node.body:
-                self.visit(b)
-            self.in_not_none -= nn
-            for b in node.orelse:
-                self.visit(b)
-
-        def visit_Call(self, node):
-            name = getattr(node.func, "id", "")
-            if name in funcs and name.startswith("_serialized"):
-                self.visit(funcs[name])
-                return
-            if name.startswith("serialize") and node.args:
-                c = const_of(node.args[0])
-                if c is not None:
-                    order.append(c)
-                    if self.in_not_none:
-                        not_none.append(c)
-                    return
-            self.generic_visit(node)
-
-    V().visit(meth["serialize"])
+    order, not_none, v2_only, _v0, _un = _emission(m, meth["serialize"], funcs, "PSBT_OUT_")
     if len(set(order)) != len(order) or order.count(256) != 1:
         raise ValueError(f"PsbtOut.serialize: emission order malformed: {order}")
     parse = meth["parse"]
@@ -282,6 +258,240 @@ def _psbt_out_tables():
     t += f"/-- `PsbtOut.parse`: key-data fields -/\ndef PSBT_OUT_KEYED : List Nat := {lst(sorted(keyed))}\n"
     t += f"/-- `psbt_out._V2_FIELDS` -/\ndef PSBT_OUT_V2 : List Nat := {lst(sorted(k[0] for k in m._V2_FIELDS))}\n"
     t += f"/-- fields `PsbtOut.serialize` writes under `is not None` -/\ndef PSBT_OUT_PRESENT_IF_NOT_NONE : List Nat := {lst(sorted(not_none))}\n"
+    t += f"/-- fields `PsbtOut.serialize` writes under `if psbt_version == 2` only -/\ndef PSBT_OUT_V2_ONLY : List Nat := {lst(sorted(v2_only))}\n"
+    return t
+
+
+# ---------------------------------------------------------------------------------------------------
+# value kinds: which deserializer reads the value of each field type, read off the syntax trees of the
+# parse tables / parse functions (so that the value-check dispatch of the typed-layer model is regenerated)
+VK = {"BYTES": 0, "UINT": 1, "SINT": 2, "FIXED": 3, "TX": 4, "UNSIGNED_TX": 5, "TXOUT": 6, "WITNESS": 7,
+      "KEYORIGIN": 8, "LEAF": 9, "TAPBIP32": 10, "MUSIG": 11, "TAPTREE": 12, "COUNT": 13}
+_BASE = {"BIP32KeyOrigin.parse": "KEYORIGIN", "parse_leaf_script": "LEAF", "parse_taproot_bip32": "TAPBIP32",
+         "parse_musig2_participant_pub_keys": "MUSIG", "parse_taproot_tree": "TAPTREE",
+         "deserialize_count": "COUNT", "TxOut.parse": "TXOUT", "Witness.parse": "WITNESS"}
+_PRIORITY = ["TxOut.parse", "Witness.parse", "deserialize_tx", "deserialize_sized_int", "deserialize_count",
+             "BIP32KeyOrigin.parse", "parse_leaf_script", "parse_taproot_bip32",
+             "parse_musig2_participant_pub_keys", "parse_taproot_tree", "deserialize_bytes"]
+
+
+def _const(node):
+    if isinstance(node, ast.Constant):
+        return node.value
+    raise ValueError(f"not a literal: {ast.unparse(node)}")
+
+
+def _kind_of_nodes(nodes, funcs, depth=0):
+    """(kind name, size) of the value deserializer a piece of syntax calls"""
+    calls = {}
+    for root in nodes:
+        for n in ast.walk(root):
+            if isinstance(n, ast.Call):
+                calls.setdefault(ast.unparse(n.func), n)
+    for name in _PRIORITY:
+        if name not in calls:
+            continue
+        c = calls[name]
+        if name == "deserialize_sized_int":
+            signed = any(k.arg == "signed" and _const(k.value) is True for k in c.keywords)
+            return ("SINT" if signed else "UINT", int(_const(c.args[3])))
+        if name == "deserialize_tx":
+            tmpl = any(k.arg == "unsigned_template" and _const(k.value) is True for k in c.keywords)
+            strict = len(c.args) > 3 and _const(c.args[3]) is False
+            if tmpl != strict:
+                raise ValueError(f"deserialize_tx call of an unknown shape: {ast.unparse(c)}")
+            return ("UNSIGNED_TX" if tmpl else "TX", 0)
+        if name == "deserialize_bytes":
+            for root in nodes:      # `if len(x) != N: raise` after it makes a fixed-size field
+                for n in ast.walk(root):
+                    if (isinstance(n, ast.Compare) and isinstance(n.ops[0], ast.NotEq) and isinstance(n.left, ast.Call)
+                            and ast.unparse(n.left.func) == "len" and ast.unparse(n.left.args[0]) != "k"
+                            and isinstance(n.comparators[0], ast.Constant)):
+                        return ("FIXED", int(n.comparators[0].value))
+            return ("BYTES", 0)
+        return (_BASE[name], 0)
+    # a helper of the module, called by name
+    for name, c in calls.items():
+        if name in funcs and depth < 3:
+            return _kind_of_nodes(funcs[name].body, funcs, depth + 1)
+    return None
+
+
+def _kind_of_callable(node, funcs):
+    if isinstance(node, ast.Name) and node.id == "bytes":
+        return ("BYTES", 0)
+    name = ast.unparse(node)
+    if name in _BASE:
+        return (_BASE[name], 0)
+    if name == "deserialize_tx":          # the defaults: either encoding, a complete transaction
+        return ("TX", 0)
+    if name == "deserialize_bytes":
+        return ("BYTES", 0)
+    if isinstance(node, ast.Lambda):
+        r = _kind_of_nodes([node.body], funcs)
+    elif isinstance(node, ast.Name) and node.id in funcs:
+        r = _kind_of_nodes(funcs[node.id].body, funcs)
+    else:
+        r = _kind_of_nodes([ast.Expr(ast.Call(node, [], []))], funcs)
+    if r is None:
+        raise ValueError(f"value deserializer of an unknown shape: {name}")
+    return r
+
+
+def _module_trees(*mods):
+    funcs = {}
+    for mod in mods:
+        for n in ast.parse(inspect.getsource(mod)).body:
+            if isinstance(n, ast.FunctionDef):
+                funcs.setdefault(n.name, n)
+    return funcs
+
+
+def _dict_literal(tree, name):
+    for n in ast.walk(tree):
+        if isinstance(n, (ast.Assign, ast.AnnAssign)):
+            tgt = n.targets[0] if isinstance(n, ast.Assign) else n.target
+            if getattr(tgt, "id", "") == name and isinstance(n.value, ast.Dict):
+                return n.value
+    raise ValueError(f"table {name} not found")
+
+
+def _branches(fn_node, lhs, mod, prefix):
+    """{type: body} of the `if/elif <lhs> == CONST:` chain of fn_node"""
+    out = {}
+    for n in ast.walk(fn_node):
+        if isinstance(n, ast.If) and isinstance(n.test, ast.Compare) and ast.unparse(n.test.left) == lhs \
+                and isinstance(n.test.ops[0], ast.Eq) and isinstance(n.test.comparators[0], ast.Name) \
+                and n.test.comparators[0].id.startswith(prefix):
+            out[getattr(mod, n.test.comparators[0].id)[0]] = n.body
+    return out
+
+
+def _lst3(rows):
+    return "[" + ", ".join(f"({t}, {VK[k]}, {s})" for t, (k, s) in sorted(rows.items())) + "]"
+
+
+def _hd_types(cls_node, ser_nodes, mod, prefix, table=None):
+    """field types whose dict goes through `decode_hd_key_paths` (hence `assert_valid_hd_key_paths`) in __init__:
+    the types written by `serialize_hd_key_paths`, provided __init__ calls the decoder"""
+    init = next(n for n in cls_node.body if isinstance(n, ast.FunctionDef) and n.name == "__init__")
+    if not any(isinstance(n, ast.Call) and ast.unparse(n.func) == "decode_hd_key_paths" for n in ast.walk(init)):
+        return []
+    out = []
+    if table is not None:
+        for type_, _name, fn in table:
+            if getattr(fn, "__name__", "") == "serialize_hd_key_paths":
+                out.append(type_[0])
+    for root in ser_nodes:
+        for n in ast.walk(root):
+            if isinstance(n, ast.Call) and ast.unparse(n.func) == "serialize_hd_key_paths" and isinstance(n.args[0], ast.Name) \
+                    and n.args[0].id.startswith(prefix):
+                out.append(getattr(mod, n.args[0].id)[0])
+    return sorted(set(out))
+
+
+def _kinds_tables():
+    from btclib.psbt import psbt_in as mi, psbt_out as mo, psbt as mg, psbt_utils as mu
+    from btclib.bip32 import key_origin as ko
+    from btclib.tx import tx as tx_mod
+    from btclib import amount as amount_mod
+
+    def lst(xs):
+        return "[" + ", ".join(str(x) for x in xs) + "]"
+
+    t = "/-- value kinds: which deserializer reads the value of a field (codes used by the `*_KINDS` tables) -/\n"
+    for k, v in VK.items():
+        t += f"def VK_{k} : Nat := {v}\n"
+    # ---- PsbtIn: the two parse tables
+    fi = _module_trees(mi, mu)
+    ti = ast.parse(inspect.getsource(mi))
+    rows = {}
+    for tbl in ("_WHOLE_VALUE_FIELDS", "_KEY_DATA_FIELDS"):
+        d = _dict_literal(ti, tbl)
+        for k, v in zip(d.keys, d.values):
+            rows[getattr(mi, k.id)[0]] = _kind_of_callable(v.elts[-1], fi)
+    if set(rows) != {k[0] for k in mi._WHOLE_VALUE_FIELDS} | {k[0] for k in mi._KEY_DATA_FIELDS}:
+        raise ValueError("PsbtIn parse tables: literal and object disagree")
+    t += f"/-- (type, value kind, size) of every field of `PsbtIn.parse` -/\ndef PSBT_IN_KINDS : List (Nat × Nat × Nat) := {_lst3(rows)}\n"
+    cls_in = next(n for n in ti.body if isinstance(n, ast.ClassDef) and n.name == "PsbtIn")
+    t += f"/-- `PsbtIn`: dicts that go through `assert_valid_hd_key_paths` whatever `check_validity` says -/\ndef PSBT_IN_HD : List Nat := {lst(_hd_types(cls_in, [], mi, 'PSBT_IN_', mi._SERIALIZED_FIELDS))}\n"
+    # ---- PsbtOut: the dispatch of `parse`, `_SP_FIELDS`, `key_data_fields`
+    fo = _module_trees(mo, mu)
+    to = ast.parse(inspect.getsource(mo))
+    cls_out = next(n for n in to.body if isinstance(n, ast.ClassDef) and n.name == "PsbtOut")
+    meth_o = {n.name: n for n in cls_out.body if isinstance(n, ast.FunctionDef)}
+    rows = {}
+    for ty, body in _branches(meth_o["parse"], "k[:1]", mo, "PSBT_OUT_").items():
+        r = _kind_of_nodes(body, fo)
+        if r is None:
+            raise ValueError(f"PsbtOut.parse: branch of type {ty} calls no known deserializer")
+        rows[ty] = r
+    for name in ("_SP_FIELDS",):
+        d = _dict_literal(to, name)
+        for k, v in zip(d.keys, d.values):
+            rows[getattr(mo, k.id)[0]] = _kind_of_callable(v.elts[-1], fo)
+    d = _dict_literal(meth_o["parse"], "key_data_fields")
+    for k, v in zip(d.keys, d.values):
+        rows[getattr(mo, k.id)[0]] = _kind_of_callable(v.elts[-1], fo)
+    t += f"/-- (type, value kind, size) of every field of `PsbtOut.parse` -/\ndef PSBT_OUT_KINDS : List (Nat × Nat × Nat) := {_lst3(rows)}\n"
+    ser_o = [meth_o["serialize"]] + [f for n, f in fo.items() if n.startswith("_serialized")]
+    t += f"def PSBT_OUT_HD : List Nat := {lst(_hd_types(cls_out, ser_o, mo, 'PSBT_OUT_'))}\n"
+    # ---- global map: `_V2_GLOBAL_PARSERS`, the dispatch of `_parse_global_map`, `_global_version`
+    fg = _module_trees(mg, mu)
+    tg = ast.parse(inspect.getsource(mg))
+    rows = {}
+    d = _dict_literal(tg, "_V2_GLOBAL_PARSERS")
+    for k, v in zip(d.keys, d.values):
+        rows[getattr(mg, k.id)[0]] = _kind_of_callable(v.elts[-1], fg)
+    v0_only = []
+    for ty, body in _branches(fg["_parse_global_map"], "type_", mg, "PSBT_GLOBAL_").items():
+        r = _kind_of_nodes(body, {})
+        if ty == mg.PSBT_GLOBAL_VERSION[0]:
+            r = _kind_of_nodes(fg["_global_version"].body, {})
+        rows[ty] = r if r is not None else ("BYTES", 0)    # `X[k[1:]] = v`: kept as it comes
+        for n in body:
+            if isinstance(n, ast.If) and ast.unparse(n.test) == "version != PSBT_V0" and any(isinstance(x, ast.Raise) for x in n.body):
+                v0_only.append(ty)
+    t += f"/-- (type, value kind, size) of every field of the global map (`_parse_global_map`, `_global_version`) -/\ndef PSBT_GLOBAL_KINDS : List (Nat × Nat × Nat) := {_lst3(rows)}\n"
+    t += f"/-- refused by `_parse_global_map` at any version but 0 -/\ndef PSBT_GLOBAL_V0_ONLY : List Nat := {lst(sorted(v0_only))}\n"
+    cls_g = next(n for n in tg.body if isinstance(n, ast.ClassDef) and n.name == "Psbt")
+    meth_g = {n.name: n for n in cls_g.body if isinstance(n, ast.FunctionDef)}
+    t += f"def PSBT_GLOBAL_HD : List Nat := {lst(_hd_types(cls_g, [meth_g['serialize']], mg, 'PSBT_GLOBAL_'))}\n"
+    # `_settle_globals`: the fields a version 2 psbt must carry
+    name_type = {v[0]: k[0] for k, v in mg._V2_GLOBAL_PARSERS.items()}
+    req = []
+    for n in ast.walk(fg["_settle_globals"]):
+        if isinstance(n, ast.For) and isinstance(n.iter, ast.Tuple):
+            req = [name_type[_const(e.elts[0])] for e in n.iter.elts]
+    if not req:
+        raise ValueError("_settle_globals: required fields not found")
+    t += f"/-- `_settle_globals`: what a version 2 psbt must carry -/\ndef PSBT_GLOBAL_REQUIRED_V2 : List Nat := {lst(sorted(req))}\n"
+    # ---- constants of the value checks
+    cb = None
+    for n in ast.walk(ast.parse(inspect.getsource(tx_mod._assert_valid_coinbase))):
+        if isinstance(n, ast.Compare) and len(n.ops) == 2 and all(isinstance(o, ast.LtE) for o in n.ops):
+            cb = (_const(n.left), _const(n.comparators[1]))
+    if cb is None:
+        raise ValueError("_assert_valid_coinbase: script size bounds not found")
+    t += f"/-- `_assert_valid_coinbase`: bounds of the coinbase script size -/\ndef COINBASE_SCRIPT_MIN : Nat := {cb[0]}\ndef COINBASE_SCRIPT_MAX : Nat := {cb[1]}\n"
+    t += f"/-- `amount._MAX_SATOSHI` (MoneyRange) -/\ndef MAX_SATOSHI : Nat := {amount_mod._MAX_SATOSHI}\n"
+    hd = None
+    for n in ast.walk(ast.parse(inspect.getsource(ko.assert_valid_hd_key_paths))):
+        if isinstance(n, ast.Compare) and isinstance(n.ops[0], ast.NotIn) and isinstance(n.comparators[0], ast.Set):
+            hd = sorted(_const(e) for e in n.comparators[0].elts)
+    if not hd:
+        raise ValueError("assert_valid_hd_key_paths: key lengths not found")
+    t += f"/-- `assert_valid_hd_key_paths`: lengths of the key a derivation is keyed by -/\ndef HD_KEY_LENGTHS : List Nat := {lst(hd)}\n"
+    mx = None
+    src = textwrap.dedent(inspect.getsource(ko.BIP32KeyOrigin.assert_valid))
+    for n in ast.walk(ast.parse(src)):
+        if isinstance(n, ast.Compare) and isinstance(n.ops[0], ast.Gt) and ast.unparse(n.left) == "len(self)":
+            mx = _const(n.comparators[0])
+    if mx is None:
+        raise ValueError("BIP32KeyOrigin.assert_valid: path bound not found")
+    t += f"/-- `BIP32KeyOrigin.assert_valid`: most indexes a path holds -/\ndef KEYORIGIN_MAX_PATH : Nat := {mx}\n"
+    t += f"def LEAF_HASH_SIZE : Nat := {mu.LEAF_HASH_SIZE}\ndef FINGERPRINT_SIZE : Nat := {mu.FINGERPRINT_SIZE}\ndef MUSIG2_PUB_KEY_SIZE : Nat := {mu.MUSIG2_PUB_KEY_SIZE}\n"
+    t += f"/-- `assert_valid_psbt_version`: the versions there are -/\ndef PSBT_VERSIONS : List Nat := {lst(sorted([mu.PSBT_V0, mu.PSBT_V2]))}\n"
     return t
 
 
